@@ -24,7 +24,7 @@ type c02Inv struct {
 }
 
 type c02Case struct {
-	Family string   `json:"family"` // history | h2
+	Family string   `json:"family"` // history | h2 | slow
 	Invs   []c02Inv `json:"invs,omitempty"`
 	Ext    bool     `json:"ext,omitempty"`
 }
@@ -34,6 +34,9 @@ const c02T = 300
 func (c *c02Case) scenario() *Scenario {
 	if c.Family == "h2" {
 		return c.h2Scenario()
+	}
+	if c.Family == "slow" {
+		return c.slowScenario()
 	}
 	sc := &Scenario{Config: Config{TimeoutMs: c02T, TimeoutEnvS: 9}, Actors: map[string][]Script{}, BudgetS: 40, SelectBy: "stage"}
 	if c.Ext {
@@ -148,6 +151,44 @@ func (c *c02Case) scenario() *Scenario {
 	return sc
 }
 
+// slowScenario: a submission for invocation A whose body upload starts while A is in flight and ends only after A was
+// ended by the timeout and (if the emulator lets it) the next invocation B has been reserved and dispatched. The
+// submission comes from another process (the driver), which no reset kills.
+func (c *c02Case) slowScenario() *Scenario {
+	sc := &Scenario{Config: Config{TimeoutMs: c02T, TimeoutEnvS: 9}, Actors: map[string][]Script{}, BudgetS: 40, SelectBy: "stage"}
+	sc.Actors["runtime"] = []Script{
+		{Steps: []Step{{Op: "rt.next", Signal: []string{"A.got"}}, {Op: "stall"}}},
+		{Steps: []Step{{Op: "rt.next", Signal: []string{"B.got"}}, {Op: "await", Name: "B.go", Ms: 6000}, {Op: "rt.response", ID: "cur", BodyMode: "transform", Tag: "B.own"}, {Op: "rt.loop"}}},
+	}
+	call := "rt.response"
+	if len(c.Invs) > 0 && len(c.Invs[0].Extras) > 0 {
+		call = c.Invs[0].Extras[0].Call
+	}
+	slow := Step{Op: call, ID: "nth:0", BodyMode: "lit", Lit: "EXTRA-slow-upload-for-A-" + strings.Repeat("x", 64), Tag: "x.slow", Async: true, SlowBody: "finish"}
+	if call == "rt.error" {
+		slow.ErrType = "Function.Stale"
+	}
+	sc.Driver = []Step{
+		{Op: "flag", Flag: "stage", Count: 0},
+		{Op: "invoke", Tag: "A", Async: true, Payload: &kit.Blob{Len: 20, Seed: 1, Kind: "ascii"}},
+		{Op: "await", Name: "A.got", Ms: 5000},
+		slow,
+		{Op: "sleep", Ms: c02T + 200}, // the timeout fires, the reset runs (as far as the upload lets it)
+		{Op: "flag", Flag: "stage", Count: 1},
+		{Op: "invoke", Tag: "B", Async: true, Payload: &kit.Blob{Len: 21, Seed: 2, Kind: "ascii"}},
+		{Op: "await", Name: "B.got", Ms: 250, Quiet: true},
+		{Op: "signal", Name: "finish"},
+		{Op: "join", Tag: "x.slow"},
+		{Op: "sleep", Ms: 20},
+		{Op: "signal", Name: "B.go"},
+		{Op: "join", Tag: "A"},
+		{Op: "join", Tag: "B"},
+		{Op: "invoke", Tag: "Y", Payload: &kit.Blob{Len: 11, Seed: 98, Kind: "ascii"}},
+		{Op: "invoke", Tag: "Z", Payload: &kit.Blob{Len: 12, Seed: 99, Kind: "ascii"}},
+	}
+	return sc
+}
+
 func (c *c02Case) h2Scenario() *Scenario {
 	sc := &Scenario{Config: Config{TimeoutMs: c02T, TimeoutEnvS: 9}, Actors: map[string][]Script{}, BudgetS: 40, SelectBy: "stage",
 		Hooks: []HookPlan{{Point: "fastinvoke.failure", Nth: 1}}}
@@ -206,6 +247,35 @@ func c02Check(c c02Case) (out kit.Outcome) {
 			return out
 		}
 		if !expectOK(&out, "C02", tr, "B", kit.Blob{Len: 21, Seed: 2, Kind: "ascii"}) || !expectOK(&out, "C02", tr, "Z", kit.Blob{Len: 12, Seed: 99, Kind: "ascii"}) {
+			return out
+		}
+		return out
+	}
+	if c.Family == "slow" {
+		out.Nontrivial = true
+		for _, tag := range []string{"A", "B", "Y", "Z"} {
+			ret := tr.invokeReturn(tag)
+			if ret == nil {
+				out.Violate("C02/no-outcome", "invocation %s has no outcome", tag)
+				return out
+			}
+			if strings.Contains(ret.Text, "EXTRA-") && tag != "A" {
+				out.Violate("C02/extra-delivered", "invocation %s: the caller received the body of a submission made for the earlier invocation A (slow upload finished after A was over): %q", tag, clip(ret.Text, 80))
+				return out
+			}
+		}
+		b := tr.invokeReturn("B")
+		switch {
+		case b.Status >= 400 && b.Status < 500:
+			out.Label("slow:B-refused-while-A-still-reserved")
+		default:
+			if !expectOK(&out, "C02", tr, "B", kit.Blob{Len: 21, Seed: 2, Kind: "ascii"}) {
+				return out
+			}
+			out.Label("slow:B-served")
+		}
+		// service is normal afterwards (at most one more failure is not allowed here: nothing misbehaves any more)
+		if !expectOK(&out, "C02", tr, "Z", kit.Blob{Len: 12, Seed: 99, Kind: "ascii"}) {
 			return out
 		}
 		return out
@@ -293,8 +363,12 @@ func c02Check(c c02Case) (out kit.Outcome) {
 }
 
 func c02Gen(t *rapid.T) c02Case {
-	if rapid.IntRange(0, 9).Draw(t, "h2") == 0 {
+	switch rapid.IntRange(0, 11).Draw(t, "special") {
+	case 0:
 		return c02Case{Family: "h2"}
+	case 1:
+		return c02Case{Family: "slow", Invs: []c02Inv{{Kind: "timeout", Extras: []c02Extra{{Pos: "working", ID: "nth:0", From: "driver",
+			Call: rapid.SampledFrom([]string{"rt.response", "rt.error"}).Draw(t, "slowCall")}}}}}
 	}
 	c := c02Case{Family: "history", Ext: rapid.IntRange(0, 3).Draw(t, "ext") == 0}
 	n := rapid.IntRange(2, 5).Draw(t, "n")
@@ -346,6 +420,7 @@ func c02Gen(t *rapid.T) c02Case {
 func c02Fixed() []c02Case {
 	return []c02Case{
 		{Family: "h2"},
+		{Family: "slow"},
 		{Family: "history", Invs: []c02Inv{
 			{Kind: "ok", Extras: []c02Extra{{Pos: "init", ID: "garbage", Call: "rt.response", From: "driver"}, {Pos: "answered", ID: "cur", Call: "rt.response", From: "runtime"}}},
 			{Kind: "timeout", Extras: []c02Extra{{Pos: "idle", ID: "nth:0", Call: "rt.response", From: "driver"}, {Pos: "working", ID: "nth:0", Call: "rt.error", From: "runtime"}}},
